@@ -595,6 +595,9 @@ class World:
         for r in recipes:
             try:
                 obj = BUILDERS[r["k"]](self, *r.get("a", []), **r.get("kw", {}))
+                if r.get("poke"):
+                    idx, val = r["poke"]
+                    obj.array[tuple(idx)] = val   # user-level write before the history starts (see program.noisy)
             except Exception as e:  # noqa: BLE001 -- a degenerate recipe is an ordinary outcome
                 errs.append(f"{r['slot']}:{type(e).__name__}")
                 continue
